@@ -809,6 +809,12 @@ class Gen:
         d = self.p.max_depth
         if kind == "newtype":
             it.fields = [self.unnamed_field(it.params, d)]
+            if not it.params and self.r.random() < self.p.p_attr * 0.12:
+                # serde ignores `skip` on the field of a newtype struct (it still writes the content)
+                it.fields = [Field(None, self.leaf(), skip=True)]
+                if it.fields[0].ty.name == "char":
+                    it.fields[0].ty = prim("String")
+                it.tags.append("k:newtype-struct-skip")
         elif kind == "tuple":
             k = self.r.choice([0, 2, 2, 3])
             it.fields = [self.unnamed_field(it.params, d) for _ in range(k)]
